@@ -362,8 +362,11 @@ class CLexer(HandLexerBase):
             # For example 12.3
             return self.lex_float()
         elif base == 10 and self.accept("eEpP"):
-            # For example 12e7
-            return self.lex_float()
+            # For example 12e7 or 12e-7
+            self.accept("+-")
+            self.accept_run(self.numbers)
+            self.emit("FLOAT")
+            return self.lex_c
         else:
             # Accept some integer suffixes, such as 'L', or 'ull'
             long_suffixes = 0
